@@ -100,6 +100,8 @@ pub open spec fn dominates(r: int, secret_bits: nat, t: nat) -> bool {
     r >= ipow(2, secret_bits + 2 * t + 64)
 }
 
+pub open spec fn blinding_bits_spec(secret_bits: nat, t: nat, lin: nat) -> nat { secret_bits + 2 * t + lin }
+
 /// a value of exactly `secret_bits + 2t + lin` bits masks and dominates (lin >= 65, at least 321 bits)
 pub proof fn lemma_blinding(secret_bits: nat, t: nat, lin: nat)
     requires lin >= 65, secret_bits + 2 * t + lin >= 321,
